@@ -94,6 +94,9 @@ def encode(rng, wbits, total, delta=False, ref=b'', e8=False, reset_interval=0, 
             if total==0: break
         # one block: choose size (may span frames)
         bsize=min(total-pos, rng.choice([1,2,7,100,1000,5000,32768,40000,70000]))
+        if reset_interval:       # blocks end at reset boundaries; no match reaches before the last reset point
+            rb=(pos//(32768*reset_interval))*32768*reset_interval; bsize=min(bsize, rb+32768*reset_interval-pos)
+        else: rb=0
         btype=rng.choice([1,1,2,2,3])
         # pre-generate tokens for this block so that trees cover the used symbols
         toks=[]; p=pos; bend=pos+bsize; r=list(R)
@@ -102,7 +105,7 @@ def encode(rng, wbits, total, delta=False, ref=b'', e8=False, reset_interval=0, 
         else:
             while p<bend:
                 fe=(p//32768+1)*32768; lim=min(bend,fe,total)
-                maxoff=min(p+len(ref) if delta else p, wsize-3)
+                maxoff=min(p+len(ref) if delta else p-rb, wsize-3)
                 if maxoff>=1 and lim-p>=2 and rng.random()<0.5:
                     ml=rng.randint(2,min(257,lim-p)) if rng.random()<0.8 else min(257,lim-p)
                     mode=rng.random()
@@ -132,8 +135,9 @@ def encode(rng, wbits, total, delta=False, ref=b'', e8=False, reset_interval=0, 
                 while fb<pos+bsize:
                     cuts.append(len(bw.out)+(fb-pos)); fb+=32768
             bw.raw(chunk); data+=chunk; pos+=bsize
-            if cuts is not None and pos%32768==0 and pos<total: cuts.append(len(bw.out)+(1 if bsize&1 else 0))
-            if bsize&1 and pos<total: bw.raw(b'\x00')
+            if cuts is not None and pos%32768==0 and pos<total: cuts.append(len(bw.out))
+            at_reset = reset_interval and pos%(32768*reset_interval)==0
+            if bsize&1 and pos<total and not at_reset: bw.raw(b'\x00')   # the decoder forgets the odd-length realign across a state reset
             elif bsize&1: pass
             continue
         # trees
